@@ -30,6 +30,9 @@
 #ifndef VF_REGISTRARS
 #define VF_REGISTRARS 1
 #endif
+#ifndef VF_SEQ_ORDER
+#define VF_SEQ_ORDER 0  // 1: sequential engine, main plays the threads one after the other (order symbolic)
+#endif
 #ifndef VF_CHECK_POOL
 #define VF_CHECK_POOL 1
 #endif
@@ -86,6 +89,7 @@ struct SchedA {
 };
 static SchedA g_schedA;
 
+static int g_who;  // sequential mode: the role main is playing (1 completer, 2.. registrar)
 // continuation's schedulable: queues; records who dispatched and in which state
 struct SchedC {
   dispenso::OnceFunction slot[2];
@@ -99,7 +103,7 @@ struct SchedC {
       slot[n] = std::move(f);
     }
     ++n;
-    if (vf_self() == 1) {
+    if ((VF_SEQ_ORDER ? g_who : vf_self()) == 1) {
       vf_reach("continuation dispatched by the completing thread (registered before completion)");
     } else if (g_links > 0) {
       vf_reach("continuation dispatched by the registrar's re-check (registered during completion)");
@@ -163,6 +167,28 @@ extern "C" void vf_main() {
 #if VF_REGISTRARS >= 2
   new (&g_a[2].f) FutA(g_a[0].f);
 #endif
+#if VF_SEQ_ORDER
+  // task-granularity interleaving: the completer's run() and the registrars' then() calls execute one
+  // after the other in a symbolic order
+  {
+    uint32_t pos = vf_range_u32(0, VF_REGISTRARS);  // number of then() calls before the completion
+    if (dropEarly) {
+      g_a[0].f.~FutA();
+    }
+    g_who = 2;
+    if (pos >= 1) registrar0(nullptr);
+#if VF_REGISTRARS >= 2
+    if (pos >= 2) registrar1(nullptr);
+#endif
+    g_who = 1;
+    completer(nullptr);
+    g_who = 2;
+    if (pos < 1) registrar0(nullptr);
+#if VF_REGISTRARS >= 2
+    if (pos < 2) registrar1(nullptr);
+#endif
+  }
+#else
   vf_spawn(completer, nullptr);
   vf_spawn(registrar0, nullptr);
 #if VF_REGISTRARS >= 2
@@ -172,6 +198,7 @@ extern "C" void vf_main() {
     g_a[0].f.~FutA();
   }
   vf_join_all();
+#endif
   vf_reach("all threads finished");
 
   vf_check(g_runsA == 1, "antecedent functor ran exactly once");
